@@ -543,6 +543,38 @@ example :
     (declaration [.sp 0, .dcl (.ptr [] (.fn (.ident "f") .nil false)), .eq, .ini 0, .body 0]).isNone = true := by
   simp [declaration, specs, idl, initOK, isFunDef, fnNextToName, unparen, hasTypedef]
 
+/-- does the list contain a tag declaration? -/
+def hasTag : List Spec → Bool
+  | [] => false
+  | .tagd _ :: _ => true
+  | _ :: r => hasTag r
+
+/-- the rest does not begin with a specifier the loop still takes AFTER a tag declaration -/
+def NoSpecT : List Tok → Prop
+  | .sp _ :: _ => False
+  | .tdef :: _ => False
+  | _ => True
+
+theorem specsT_maximal : ∀ ts : List Tok, NoSpecT (specsT ts).2
+  | [] => trivial
+  | .sp _ :: r => by simp only [specsT]; exact specsT_maximal r
+  | .tdef :: r => by simp only [specsT]; exact specsT_maximal r
+  | .ty _ :: _ | .tagd _ :: _ | .dcl _ :: _ | .eq :: _ | .ini _ :: _ | .comma :: _ | .semi :: _ | .body _ :: _ => trivial
+
+/-- **The specifier loop is greedy**: it stops only at a token it cannot take - before a tag declaration, at the first token that is no
+specifier at all; after one, at the first token that is not a non-type specifier.  (So the split of a declaration into specifiers and
+declarators is decided by the tokens alone.) -/
+theorem specs_maximal : ∀ ts : List Tok,
+    (hasTag (specs ts).1 = false → NoSpec (specs ts).2) ∧ (hasTag (specs ts).1 = true → NoSpecT (specs ts).2)
+  | [] => ⟨fun _ => trivial, fun _ => trivial⟩
+  | .sp _ :: r => by simp only [specs, hasTag]; exact specs_maximal r
+  | .tdef :: r => by simp only [specs, hasTag]; exact specs_maximal r
+  | .ty _ :: r => by simp only [specs, hasTag]; exact specs_maximal r
+  | .tagd _ :: r => by
+    simp only [specs, hasTag]
+    exact ⟨fun h => by simp at h, fun _ => specsT_maximal r⟩
+  | .dcl _ :: _ | .eq :: _ | .ini _ :: _ | .comma :: _ | .semi :: _ | .body _ :: _ => ⟨fun _ => trivial, fun h => by simp [specs, hasTag] at h⟩
+
 /-- non-vacuity: `struct S { … } static const s;`, `struct T { … } typedef TT;`, `static struct S { … } const *p;` accepted; `struct x { … } int z;`
 and two tag declarations refused -/
 example :
